@@ -53,6 +53,7 @@ type rec struct {
 	Viol      []violRec         `json:"viol"`
 	Samples   []sampleRec       `json:"samples"`
 	Infra     []string          `json:"infra"`
+	Unrepro   []string          `json:"unreproduced"`
 	Notes     map[string]string `json:"notes"`
 }
 
@@ -100,7 +101,9 @@ func sigSet(fs []finding) string {
 // that show up again in one of up to three re-runs (E3 does not control the interleaving of the
 // library goroutines, so a finding may depend on it; every run is a real execution of the real
 // code, the re-run only guards against a fluke of the rig). A finding that never shows up again
-// is an infrastructure error, never a silent pass.
+// is kept aside as "unreproduced": the parent lists it in the evidence when the run reports
+// reproducible violations anyway, and turns it into an infrastructure error (never a silent
+// pass) when the run would otherwise report nothing.
 func report(r *rec, idx int, first []finding, rerun func() []finding) {
 	if len(first) == 0 {
 		return
@@ -125,7 +128,7 @@ func report(r *rec, idx int, first []finding, rerun func() []finding) {
 		}
 	}
 	if n == 0 {
-		r.infra("session %d: replay divergence, nothing reproduced in 3 re-runs: first run %s, last run %s", idx, sigSet(first), sigSet(last))
+		r.Unrepro = append(r.Unrepro, fmt.Sprintf("session %d: replay divergence, nothing reproduced in 3 re-runs: first run %s, last run %s", idx, sigSet(first), sigSet(last)))
 	}
 }
 
@@ -211,6 +214,7 @@ func runSharded(c *vk.Ctx, part string) *rec {
 		m.Viol = append(m.Viol, r.Viol...)
 		m.Samples = append(m.Samples, r.Samples...)
 		m.Infra = append(m.Infra, r.Infra...)
+		m.Unrepro = append(m.Unrepro, r.Unrepro...)
 	}
 	sort.SliceStable(m.Viol, func(i, j int) bool { return m.Viol[i].Idx < m.Viol[j].Idx })
 	sort.SliceStable(m.Samples, func(i, j int) bool { return m.Samples[i].Idx < m.Samples[j].Idx })
@@ -248,8 +252,15 @@ func runSharded(c *vk.Ctx, part string) *rec {
 	c.Assume("E3 enumerates frame/handler-output sequences and configurations, not internal interleavings of net/http and coder/websocket goroutines")
 	c.Assume("net.Pipe replaces TCP: no kernel buffering, a peer that stops reading blocks the relay's next write at once")
 	c.Assume("virtual time by testing/synctest; quiescence = synctest.Wait (every goroutine of the bubble durably blocked)")
+	if len(m.Unrepro) > 0 {
+		sort.Strings(m.Unrepro)
+		c.SetExtra("unreproduced_findings", map[string]any{"count": len(m.Unrepro), "first": m.Unrepro[0]})
+	}
 	if len(m.Infra) > 0 { // after the merge, so that what was found is in the part all the same
 		c.Infra("%s (and %d more)", m.Infra[0], len(m.Infra)-1)
+	}
+	if len(m.Unrepro) > 0 && len(m.Viol) == 0 { // nothing reproducible was found at all
+		c.Infra("%s (and %d more)", m.Unrepro[0], len(m.Unrepro)-1)
 	}
 	return m
 }
